@@ -93,6 +93,23 @@ def families(tier, seed):
     return fams
 
 
+def _twin_signed_distance():
+    """mutant: distance(Line, Line) forgets the absolute value"""
+    import sys as _sys
+    ds = _sys.modules['Geometry3D.calc.distance']
+    orig = ds.distance
+
+    def distance(a, b):
+        if isinstance(a, Line) and isinstance(b, Line) and not ds.parallel(a, b):
+            return (b.sv - a.sv) * a.dv.cross(b.dv).normalized()
+        return orig(a, b)
+    ds.distance = distance
+    G.distance = distance
+
+
+TWINS = {'signed Line-Line distance': (r'^Line-Line/skew/axis/function$', _twin_signed_distance)}
+
+
 META = dict(
     title='distance is the exact Euclidean distance',
     level_text=('Bounded symbolic model checking of the real distance() code (and the intersection() it calls) for the five documented pairs in '
